@@ -119,6 +119,18 @@ MUTS = [
  ('M50 v2: channel width from one channel too few', 'katdal/h5datav2.py', "channel_width = bandwidth / num_chans", "channel_width = bandwidth / (num_chans - 1)"),
  ('M51 v3: vis conjugated for the upper sideband too when the band is UHF', 'katdal/h5datav3.py',
   "if self.spectral_windows[self.spw].sideband == 1:", "if self.spectral_windows[self.spw].sideband == 1 and self.spectral_windows[self.spw].band != 'UHF':"),
+ # ---- extension round: dimensionality of answers, keepdims
+ ('M52 v3 keepdims: scalar axes are not re-inserted', 'katdal/h5datav3.py',
+  "keep_singles = [(np.newaxis if np.isscalar(dim_keep) else slice(None))\n                            for dim_keep in keep]\n            return data[tuple(keep_singles)]\n        force_full_dim",
+  "keep_singles = [slice(None) for dim_keep in keep if not np.isscalar(dim_keep)]\n            return data[tuple(keep_singles)]\n        force_full_dim"),
+ ('M53 v3: keepdims test inverted', 'katdal/h5datav3.py', "        if self._keepdims:\n            transforms.append(force_full_dim)", "        if not self._keepdims:\n            transforms.append(force_full_dim)"),
+ ('M54 v2: keepdims argument ignored', 'katdal/h5datav2.py', "self._keepdims = keepdims", "self._keepdims = False"),
+ ('M55 revert a3e00d5: flags combined with the one-element mask array', 'katdal/h5datav3.py',
+  "np.bitwise_and(flags_select[0], flags)", "np.bitwise_and(flags_select, flags)"),
+ ('M56 v2 keepdims: only the first two axes are guarded', 'katdal/h5datav2.py',
+  "keep = keep[:3] + (slice(None),) * (3 - len(keep))\n", "keep = keep[:2] + (slice(None),) * (2 - len(keep))\n"),
+ ('M57 v3 weights under keepdims: per-channel weights keep their singleton axes too', 'katdal/h5datav3.py',
+  "        weights_channel.transforms = []\n", "        pass\n"),
 ]
 only = sys.argv[1:]
 res = []
